@@ -52,3 +52,10 @@ META["C16"] = _m("wire", "DESIGN.md section 4, C16", "property-based testing: ge
     "Randomised round-trip and rejection testing of the text and JSON codecs at codec layer and through a channel with a frame codec underneath; search, not proof.", "Trusts encoding/json as the definition of a complete valid JSON object.")
 META["C17"] = _m("core", "DESIGN.md section 4, C17", "property-based testing: rapid state-machine style operation sequences against a byte-string model over an in-memory net.Conn",
     "Model-based random testing of the four transport wrapper variants; search, not proof.", "Trusts the in-memory net.Conn.")
+
+META["C05"] = _m("sched", "DESIGN.md section 4, C05", "property-based testing: generated schedules over concurrent close sources (user, handlers, read/write failures, holder) with lifecycle probes; history invariants; plus a real-parallel closer stress for the yield-free election",
+    "Exploration of Close/activation/read interleavings with invariants over the recorded history, including activation under the scheduler; the closer election itself (one atomic instruction) is only reachable by the real-parallel stress cases; search, not proof.", _SCHED_NOTE)
+META["C09"] = _m("sched", "DESIGN.md section 4, C09", "property-based testing: generated schedules of concurrent Channel.Write calls over message carriers and codec pipelines; oracle = wire parses into whole messages (call-id table / reference deframer)",
+    "Exploration of message-level interleavings; two listed findings (streamed reader / multi-write WriterTo messages) are excluded from the concurrent mix by construction and re-checked by their witness cases; search, not proof.", _SCHED_NOTE)
+META["C18"] = _m("sched", "DESIGN.md section 4, C18", "property-based testing: generated schedules with stalled senders, cancelled/live contexts and Close; exact enabledness oracle from state read while nothing runs; terminal probe of blocked writers",
+    "Exploration of full-queue behaviour in both modes: outcomes are judged against the queue/context state at the instant of the enqueue decision; blocking is verified by forcing a parked writer on and finding it in the enqueue select; search, not proof.", _SCHED_NOTE)
